@@ -21,7 +21,7 @@ ARCSEC = 180.0 * 3600.0 / np.pi
 
 
 def plan(tier, seed):
-    return [{"shard": i, "reps": 25 if tier == "quick" else 1500} for i in range(16)]
+    return [{"shard": i, "reps": 25 if tier == "quick" else 30000} for i in range(16)]
 
 
 def rel(ctx, name, got, want, tol, mech, wit):
